@@ -938,7 +938,18 @@ class Interp:
                 cell = Cell('dropped', v)
                 self.call_body(self.bodies[name], [Ptr(cell)])
                 v = cell.val
-            for f in v.fields:
+            fields = v.fields
+            if v.ty.startswith(('{async', '{coroutine')):
+                # a coroutine owns different things in different states: its captured arguments before the first poll,
+                # the locals saved at the suspension point while suspended, nothing once it has returned or panicked
+                if v.variant in (1, 2):
+                    fields = ()
+                elif v.variant >= 3:
+                    lo = 64 + 64 * v.variant
+                    fields = v.fields[lo:lo + 64]
+                else:
+                    fields = v.fields[:64]
+            for f in fields:
                 if isinstance(f, (Adt, Seq)) or hasattr(f, 'on_drop'):
                     self.drop_value(f)
         elif isinstance(v, Seq):
